@@ -47,6 +47,17 @@ def lookup(I, o, name):
     elif isinstance(o, NdArr):
         from . import npmodel
         return npmodel.attr(I, o, name)
+    elif isinstance(o, slice):
+        if name == "indices":
+            def f(i, o_, a, kw):
+                n = a[0]
+                if not isinstance(n, int) or not all(x is None or isinstance(x, int) for x in (o_.start, o_.stop, o_.step)):
+                    raise Unsupported("slice.indices on symbolic values")
+                return o_.indices(n)
+        elif name in ("start", "stop", "step"):
+            return getattr(o, name)
+        else:
+            f = None
     elif isinstance(o, (GenV, IterV)):
         f = None
     else:
